@@ -66,7 +66,9 @@ def feature_text(r, bases, ligs, marks, use_ext):
     t1, t2 = pick(bases, 2)
     L.append(f"lookup CH {{ sub {pick(bases,1)[0]} {t1}' lookup SS {pick(bases,1)[0]}; sub [{' '.join(pick(bases,3))}]' lookup SS [{' '.join(pick(bases,2))}]; }} CH;")
     rv = pick(bases, 3)
-    L.append(f"lookup RV {{ rsub {rv[0]} {rv[1]}' {rv[2]} by {pick(bases,1)[0]}; rsub {rv[0]} {pick([g for g in bases if g != rv[1]],1)[0]}' {rv[2]} by {pick(bases,1)[0]}; }} RV;")
+    rcov = list(dict.fromkeys(pick(bases, r.randint(3, 5))))  # several covered glyphs, each with its own substitute
+    rsubst = [pick(bases, 1)[0] for _ in rcov]
+    L.append(f"lookup RV {{ rsub {rv[0]} [{' '.join(rcov)}]' {rv[2]} by [{' '.join(rsubst)}]; rsub {rv[0]} {pick([g for g in bases if g != rv[1]],1)[0]}' {rv[2]} by {pick(bases,1)[0]}; }} RV;")
     L.append(f"lookup CHP {{ pos {pick(bases,1)[0]} {t2}' lookup SP1 {pick(bases,1)[0]}; }} CHP;")
     L.append("feature kern { lookup SP1; lookup SP2; lookup PP1; lookup PP2; lookup CHP; } kern;")
     L.append("feature curs { lookup CUR; } curs;")
